@@ -319,13 +319,13 @@ theorem mem_applications_released (id : Identity) (ue e : DbEntry) (a : Nat)
     by_cases hc : e.classes.contains AccessSearch.applicationClass0 = true
     · have hc' : AccessSearch.applicationClass0 ∈ e.classes := by simpa using hc
       cases hl : e.attrs Attr.LinkedGroup with
-      | nil => simp [hc, SrchResult.released]
+      | nil => simp [SrchResult.released]
       | cons g rest =>
         cases rest with
-        | cons g2 rest2 => simp [hc, SrchResult.released]
+        | cons g2 rest2 => simp [SrchResult.released]
         | nil =>
           cases hmo : id.memberOf with
-          | none => simp [hc, SrchResult.released]
+          | none => simp [SrchResult.released]
           | some mo =>
             by_cases hg : mo.contains g = true
             · have hg' : g ∈ mo := by simpa using hg
